@@ -293,12 +293,29 @@ sim_event(const char *fmt, ...)
 	for (char *p = buf; *p; p++)
 		fold(&h, (uint8_t) *p);
 	fold(&G.hist_hash, h);
-	if (G.cfg.trace_level >= 1 && G.events->size() < 4000) {
+	if (G.cfg.trace_level >= 1 && G.events->size() < 20000) {
 		char pre[64];
 		snprintf(pre, sizeof(pre), "%.6f t%d ",
 		    (double) (G.now - BASE_NS) / 1e9, G.cur ? G.cur->id : -1);
 		G.events->push_back(std::string(pre) + buf);
 	}
+}
+
+// diagnostics only: recorded at trace_level >= 4, never hashed
+extern "C" void
+sim_debug(const char *fmt, ...)
+{
+	if (!G.events || G.cfg.trace_level < 4 || G.events->size() >= 20000)
+		return;
+	char    buf[512];
+	va_list ap;
+	va_start(ap, fmt);
+	vsnprintf(buf, sizeof(buf), fmt, ap);
+	va_end(ap);
+	char pre[64];
+	snprintf(pre, sizeof(pre), "%.6f t%d # ", (double) (G.now - BASE_NS) / 1e9,
+	    G.cur ? G.cur->id : -1);
+	G.events->push_back(std::string(pre) + buf);
 }
 
 extern "C" void
@@ -529,7 +546,7 @@ sim_finish_with(const char *status, const char *prop, const char *cls,
 	if (bad || G.cfg.trace_level >= 3) {
 		s += ",\"events\":[";
 		if (G.events) {
-			size_t n0 = G.events->size() > 200 && !(G.cfg.trace_level >= 3)
+			size_t n0 = G.events->size() > 300 && !(G.cfg.trace_level >= 3)
 			    ? G.events->size() - 200
 			    : 0;
 			for (size_t i = n0; i < G.events->size(); i++) {
@@ -1176,7 +1193,9 @@ __wrap_pthread_cond_timedwait(pthread_cond_t *c, pthread_mutex_t *m,
 	if (!sim_active())
 		return G.active ? ETIMEDOUT
 		                : __real_pthread_cond_timedwait(c, m, ts);
-	uint64_t d = (uint64_t) ts->tv_sec * 1000000000ull + (uint64_t) ts->tv_nsec;
+	uint64_t d = (uint64_t) ts->tv_sec > 4000000000ull
+	    ? NO_DEADLINE
+	    : (uint64_t) ts->tv_sec * 1000000000ull + (uint64_t) ts->tv_nsec;
 	return cond_wait_common(c, m, d);
 }
 
